@@ -122,7 +122,7 @@ func (g *pgen) structStage() string {
 		"to_entries", "with_entries(.value |= tostring)", "with_entries(select(.value != null))", "from_entries", "del(.a)", "del(.[0])", "del(.[] | select(. == null))", "del(.a, .b)", "setpath([\"a\"]; 1)", "setpath([0, \"x\"]; null)", "delpaths([[\"a\"], [0]])",
 		"pick(.a)", "pick(.[0])", ".a = 1", ".[0] |= . + 1", ".a += 1", ".[] //= 0", ".a //= \"d\"", ".a -= 1", ".a *= 2", ".a /= 2", ".a %= 2", ".. |= .", "(.. | numbers) |= . + 1", "(.a, .b) = 9", ".a |= empty", ".[1:] = [\"x\"]", ".[2:4] |= map(. * 2)?",
 		"map_values(. + 1)", "map_values(empty)", "walk(if type == \"number\" then . + 1 else . end)", "walk(if type == \"object\" then del(.a) else . end)", "[tostream]", "fromstream(tostream)", "[tostream] | length", "flatten", "flatten(1)", "transpose", "group_by(.a)", "group_by(type)",
-		"unique_by(length)", "unique_by(tostring)", "min_by(.a)", "max_by(length)", "sort_by(.a, .b)", "sort_by(type)", "sort", "unique", "any", "all", "add", "add(.[]?)", "[limit(3; .[]?)]", "first(.[]?)", "[first(range(10))]", "until(. > 100; . * 2)?", "[.[]? | until(type != \"number\" or . > 100; . * 2)]",
+		"unique_by(length)", "unique_by(tostring)", "min_by(.a)", "max_by(length)", "sort_by(.a, .b)", "sort_by(type)", "sort", "unique", "any", "all", "add", "add(.[]?)", "[limit(3; .[]?)]", "first(.[]?)", "[first(range(10))]", "until(. > 100 or . <= 0; . * 2)?", "[.[]? | until(type != \"number\" or . > 100 or . <= 0; . * 2)]",
 		"[recurse(.[]?; . != null)] | length", "[..] | length", "[.. | scalars]", "[.. | type]", "env.VERIF", "$ENV.VERIF", "env | type", "$ENV | has(\"VERIF\")", "input_filename", "keys", "keys_unsorted", "values", "[.[]?] | length", "length", "has(\"a\")", "has(0)", "map(has(\"a\"))?", "in({\"a\": 1})?",
 		"contains({a: 1})?", "contains([1])?", "inside([1, 2, 3])?", "indices(1)?", "indices([1, 2])?", "index(1)?", "combinations?", "[combinations(2)]?", "to_entries | map(.key)", "reverse", "tojson", "tojson | fromjson", "tojson | fromjson == .", "[.[]? | tojson]", "@json", "@text", "tostring",
 		"splits(\"a\")?", "ascii?", "[.[]? | strings | ascii_downcase]", "[.[]? | numbers]", "[.[]? | select(type == \"boolean\")]", "map(type)?", "type", "isvalid(.a)?", "getpath([\"a\"]) as $x | [$x]", "[splits(\"x\")]?", "limit(0; .[]?)", "[limit(-1; .[]?)]?", "nth(1)?", "[nth(0, 2; .[]?)]", "last", "first", "[last(.[]?)]",
@@ -293,7 +293,7 @@ func generate(n int) []tcase {
 		if sideRe.MatchString(p) {
 			ins := []any{}
 			c.InputsText = []string{}
-			for k := g.r.Intn(3); k > 0; k-- {
+			for k := 1 + g.r.Intn(2); k > 0; k-- {
 				ib, _ := json.Marshal(g.value(1))
 				it, _ := jqrun.ParseJSONText(string(ib))
 				ins = append(ins, it)
